@@ -2629,6 +2629,9 @@ class VM:
         if live is not self:
             return live._call_callback(callback, args, this_val)
         if not isinstance(callback, JSFunction):
+            # A built-in run as a callback executes no instruction of its own; it counts
+            # as a step, so that built-ins driving built-ins stay under the limits
+            self._check_limits()
             return self._run_callback(callback, args, this_val)
         if self.native_depth >= MAX_NATIVE_DEPTH:
             raise MemoryLimitError("Maximum call stack size exceeded")
